@@ -123,3 +123,7 @@ TEXTS.update({
     ('C09', 'text-dropped'): {'site': 'parser._et_xml_to_music_xml / complex types without simple content accept any value but the text is stripped',
         'what': 'character data on an element is dropped'},
 })
+TEXTS.update({
+    ('C09', 'element-dropped'): {'site': 'parser: class lookup by eval(convert_to_xml_class_name(tag)) capitalises each hyphen-separated part, so `Part-group` and `part-group` map to the same class',
+        'what': 'an element whose (damaged) name differs from a schema name only in the case of a leading letter is read as that schema element: the input element name is silently altered'},
+})
